@@ -22,12 +22,14 @@ def run(chk):
     x4(chk, prog, depths[0])
     x7(chk, prog, depths[0])
     x8(chk, prog, depths[0])
+    from .. import numrules
+    numrules.rule_strict_numbers(chk, prog, "C16.X6")
     chk.undecided_clauses += [
-        "X6 superfluous leading zero: the test is on the number token's text (value-level); strict mode is known to accept "
-        "'-012', '00' and '01.5' (DESIGN.md F9), which no class-level rule states soundly",
+        "number tokens are decided by X6 with strtod / strtoll / strtoull taken at their ISO C contracts and digit runs collapsed "
+        "(integer part: 0, 00, 05, 5, 55; other runs: 5); whether an in-range integer is converted exactly is libc's",
         "that default mode yields the original document's *value* for the value-neutral forms (only acceptance and return to "
         "the same parser configuration are decided)",
-        "literal and number tokens are opaque (their text decides acceptance)",
+        "literal tokens (null / true / false / NaN / Infinity) are opaque (their text decides acceptance)",
     ]
     chk.assumptions.append("feeding one byte per call is observationally the same as any other chunking (property C03)")
 
